@@ -4,7 +4,7 @@
 use crate::nsim;
 use crate::outcome::{Ctx, Outcome, PropInfo};
 use crate::payload;
-use crate::rng::{Fnv, Rng};
+use crate::rng::{mix, Fnv, Rng};
 use crate::watchdog;
 use bytes::Bytes;
 use renet::{ChannelConfig, ConnectionConfig, DisconnectReason, RenetClient, RenetServer, SendType, ServerEvent};
@@ -17,7 +17,7 @@ use std::time::Duration;
 pub static INFO: PropInfo = PropInfo {
     id: "C20",
     level: "exploration",
-    rule: "one evaluation = one session of the real NetcodeServerTransport and 1-5 NetcodeClientTransports over 127.0.0.1 UDP sockets, single-threaded with virtual durations, through an in-path relay (one front socket the clients believe is the server, one back socket per client) that applies a seeded schedule to the real datagrams: drop, duplicate, delay / reorder, replay of old datagrams, bit corruption; applications submit messages on all three channel kinds both ways, disconnect from either side / either layer at seeded ticks, and reconnect with the same client id; secure and unsecure authentication. Oracles: right after every NetcodeServerTransport::update the server has no disconnected-but-present connection, the message layer's connected ids equal the ids the transport has an address for, and both counts agree; ServerEvents per id alternate Connected/Disconnected starting with Connected; every application- or peer-initiated disconnect is visible on the other side within timeout + 1 s of virtual time; every obtained message is a byte-identical submission of the same client / channel, in order on ordered channels and at most once on reliable ones; in interference-only runs (every timeout window sees a genuine datagram delivered each way) no session ends unless an application asked for it; every datagram seen by the relay is <= 1400 bytes. Non-trivial = the relay interfered (drop/dup/delay/replay/corrupt) AND at least one client connected AND at least one disconnect was propagated; distinct = fingerprints of the session history (connects, disconnects, message counts). In half of the clean-relay runs one client (with an id of its own) is MUTED: the relay drops every server-to-client session datagram for it, so the server holds its session while the client is still answering the challenge; its application then disconnects (client or transport API) and the server side must be gone within 6 ticks. A quarter of the runs end their fault phase with a SERVER SHUTDOWN: 0-2 message-layer kicks (RenetServer::disconnect) are left pending and NetcodeServerTransport::disconnect_all is called in the same frame; the netcode layer must be empty at once, every session gets its ClientDisconnected and every client ends. At the end of every run the last event per id must agree with both layers. A third of the runs also have a HOST PLAYER: a local client of the same RenetServer (new_local_client, pumped with process_local_client every tick after the transport's send_packets) exchanging ordered messages with the server; it has no netcode session (excluded from the lock-step comparison), must never be reported disconnected, and its ordered streams must be complete and in order at the end of the run.",
+    rule: "one evaluation = one session of the real NetcodeServerTransport and 1-5 NetcodeClientTransports over 127.0.0.1 UDP sockets, single-threaded with virtual durations, through an in-path relay (one front socket the clients believe is the server, one back socket per client) that applies a seeded schedule to the real datagrams: drop, duplicate, delay / reorder, replay of old datagrams, bit corruption; applications submit messages on all three channel kinds both ways, disconnect from either side / either layer at seeded ticks, and reconnect with the same client id; secure and unsecure authentication. Oracles: right after every NetcodeServerTransport::update the server has no disconnected-but-present connection, the message layer's connected ids equal the ids the transport has an address for, and both counts agree; ServerEvents per id alternate Connected/Disconnected starting with Connected; every application- or peer-initiated disconnect is visible on the other side within timeout + 1 s of virtual time; every obtained message is a byte-identical submission of the same client / channel, in order on ordered channels and at most once on reliable ones; in interference-only runs (every timeout window sees a genuine datagram delivered each way) no session ends unless an application asked for it; every datagram seen by the relay is <= 1400 bytes. Non-trivial = the relay interfered (drop/dup/delay/replay/corrupt) AND at least one client connected AND at least one disconnect was propagated; distinct = fingerprints of the session history (connects, disconnects, message counts). In half of the clean-relay runs one client (with an id of its own) is MUTED: the relay drops every server-to-client session datagram for it, so the server holds its session while the client is still answering the challenge; its application then disconnects (client or transport API) and the server side must be gone within 6 ticks. A quarter of the runs end their fault phase with a SERVER SHUTDOWN: 0-2 message-layer kicks (RenetServer::disconnect) are left pending and NetcodeServerTransport::disconnect_all is called in the same frame; the netcode layer must be empty at once, every session gets its ClientDisconnected and every client ends. At the end of every run the last event per id must agree with both layers. A third of the runs also have a HOST PLAYER: a local client of the same RenetServer (new_local_client, pumped with process_local_client every tick after the transport's send_packets) exchanging ordered messages with the server; it has no netcode session (excluded from the lock-step comparison), must never be reported disconnected, and its ordered streams must be complete and in order at the end of the run. One run in 16 is a VANISHED-SERVER run instead: one client (its UDP socket connected to the server's address in 2 of 3 runs) and a server transport, direct; after some traffic the server transport is dropped (socket closed) and the client, still being updated and still sending, must be disconnected within timeout + 1 s of virtual time.",
     assumptions: &[
         "single-threaded endpoints, loopback delivery is effectively synchronous; a datagram the relay misses arrives one tick later (a legal delay)",
         "bounds are on virtual time (durations passed to update), never wall-clock",
@@ -43,6 +43,7 @@ pub static INFO: PropInfo = PropInfo {
         ("disconnect_during_handshake_with_server_session", 5),
         ("shutdown_disconnect_all", 20),
         ("host_player_liveness_checked", 50),
+        ("vanished_server_runs_connected_socket", 20),
         ("shutdown_message_layer_kick_pending", 10),
     ],
     engines_quick: &["e1"],
@@ -247,8 +248,139 @@ pub fn one_run(ctx: &Ctx, out: &mut Outcome, run_seed: u64) {
     }
 }
 
+/// The server process vanishes (its socket is closed) while a client is connected. Nothing authentic arrives any
+/// more, so the client must end through its timeout - also when its UDP socket is a *connected* one, on which the
+/// operating system reports the ICMP "port unreachable" answers to its keep-alives as errors of the next receive
+/// call (what every UDP socket does on Windows with WSAECONNRESET).
+fn vanished_server_run(ctx: &Ctx, out: &mut Outcome, run_seed: u64, r: &mut Rng) {
+    let timeout_s: i32 = *r.pick(&[2i32, 3]);
+    let dt: u64 = *r.pick(&[16u64, 50, 100]);
+    let connected_socket = r.chance(2, 3);
+    let mut key = [0u8; 32];
+    r.fill(&mut key);
+    let protocol = r.next_u64();
+    let (ssock, csock) = match (bind(), bind()) {
+        (Ok(a), Ok(b)) => (a, b),
+        _ => return out.inconclusive("C20: cannot bind loopback UDP sockets"),
+    };
+    let server_addr = ssock.local_addr().unwrap();
+    if connected_socket && csock.connect(server_addr).is_err() {
+        return out.inconclusive("C20: cannot connect the client's UDP socket");
+    }
+    let mut st = match NetcodeServerTransport::new(
+        ServerConfig { current_time: Duration::ZERO, max_clients: 2, protocol_id: protocol, public_addresses: vec![server_addr], authentication: ServerAuthentication::Secure { private_key: key } },
+        ssock,
+    ) {
+        Ok(s) => s,
+        Err(e) => return out.inconclusive(&format!("C20: server transport: {e}")),
+    };
+    let mut server = RenetServer::new(conn_cfg(100));
+    let id = 4711u64;
+    let m = nsim::mint(r, 0, protocol, 600, id, timeout_s, &[server_addr], None, &key);
+    let mut ct = match NetcodeClientTransport::new(Duration::ZERO, ClientAuthentication::Secure { connect_token: m.token }, csock) {
+        Ok(t) => t,
+        Err(e) => return out.inconclusive(&format!("C20: client transport: {:?}", e)),
+    };
+    let mut client = RenetClient::new(conn_cfg(100));
+    let d = Duration::from_millis(dt);
+    let mut log: Vec<String> = vec![format!("timeout {} s, tick {} ms, client socket connected: {}", timeout_s, dt, connected_socket)];
+    let mut now_ms = 0u64;
+    let mut up = false;
+    for _ in 0..200 {
+        now_ms += dt;
+        server.update(d);
+        let _ = st.update(d, &mut server);
+        client.update(d);
+        let _ = ct.update(d, &mut client);
+        st.send_packets(&mut server);
+        let _ = ct.send_packets(&mut client);
+        if client.is_connected() && server.is_connected(id) {
+            up = true;
+            break;
+        }
+    }
+    if !up {
+        out.count("vanished_server_runs_void_no_session");
+        out.eval(mix(&[0x7A, run_seed]), false);
+        return;
+    }
+    // a little traffic both ways, then the server is gone
+    for k in 0..r.range(2, 20) {
+        now_ms += dt;
+        client.send_message(CH_RO, Bytes::from(payload::make(1, 0, CH_RO, 0, k, 40, 1)));
+        server.send_message(id, CH_RO, Bytes::from(payload::make(1, 1, CH_RO, 0, k, 40, 1)));
+        server.update(d);
+        let _ = st.update(d, &mut server);
+        client.update(d);
+        let _ = ct.update(d, &mut client);
+        st.send_packets(&mut server);
+        let _ = ct.send_packets(&mut client);
+    }
+    if !client.is_connected() {
+        out.count("vanished_server_runs_void_no_session");
+        out.eval(mix(&[0x7A, run_seed]), false);
+        return;
+    }
+    drop(st);
+    drop(server);
+    let vanished_at = now_ms;
+    log.push(format!("t={} ms: the server transport is dropped (socket closed)", now_ms));
+    out.count("vanished_server_runs");
+    if connected_socket {
+        out.count("vanished_server_runs_connected_socket");
+    }
+    let chatty = r.chance(1, 2);
+    log.push(format!("application after that: {}", if chatty { "keeps sending" } else { "idle" }));
+    let deadline = vanished_at + timeout_s as u64 * 1000 + 1000 + 3 * dt;
+    let mut io_errors = 0u64;
+    while now_ms <= deadline {
+        now_ms += dt;
+        // a chatty application produces several datagrams per tick (a failing send then swallows the pending socket
+        // error), an idle one only the single acknowledgement packet of the message layer
+        if chatty && !client.is_disconnected() {
+            client.send_message(CH_U, Bytes::from(vec![1u8; 30]));
+        }
+        if connected_socket {
+            // real time for the loopback ICMP answer to the previous send to be queued on the socket (virtual time
+            // decides, this only orders two kernel events)
+            std::thread::sleep(Duration::from_micros(300));
+        }
+        client.update(d);
+        if let Err(e) = ct.update(d, &mut client) {
+            if format!("{:?}", e).contains("IO") || format!("{e}").to_lowercase().contains("refused") {
+                io_errors += 1;
+            }
+            if std::env::var("RV_C20_DEBUG").is_ok() {
+                eprintln!("update err {:?}", e);
+            }
+        }
+        if let Err(e) = ct.send_packets(&mut client) {
+            if std::env::var("RV_C20_DEBUG").is_ok() {
+                eprintln!("send err {:?}", e);
+            }
+        }
+        if client.is_disconnected() && ct.disconnect_reason().is_some() {
+            out.count("vanished_server_client_timed_out");
+            out.add("vanished_server_io_errors_seen", io_errors);
+            out.eval(mix(&[0x7B, run_seed, io_errors.min(3)]), true);
+            return;
+        }
+    }
+    log.push(format!("t={} ms: client still connected (renet connected={}, netcode reason {:?}); {} transport updates returned an IO error", now_ms, client.is_connected(), ct.disconnect_reason(), io_errors));
+    out.violation(
+        ctx,
+        &format!("C20/timeout-missed/client-transport/server-vanished/{}", if connected_socket { "connected-socket" } else { "unconnected-socket" }),
+        "a session whose peer is gone ends on the surviving side through its timeout",
+        format!("the server vanished at {} ms; at {} ms (timeout {} s) the client still reports connected; {} of its transport updates returned an IO error before advancing the netcode client's clock", vanished_at, now_ms, timeout_s, io_errors),
+        json!({"property": "C20", "engine": ctx.engine, "run_seed": format!("{:#x}", run_seed), "mode": "vanished-server", "log": log}),
+    );
+}
+
 fn one_run_inner(ctx: &Ctx, out: &mut Outcome, run_seed: u64) {
     let mut r = Rng::new(run_seed);
+    if ctx.replay_mode.as_deref() == Some("vanished-server") || (ctx.replay_mode.is_none() && r.below(16) == 0) {
+        return vanished_server_run(ctx, out, run_seed, &mut r);
+    }
     let secure = r.chance(3, 4);
     let timeout_s: i32 = if secure { *r.pick(&[2i32, 3, 5]) } else { 15 };
     let dt: u64 = *r.pick(&[16u64, 50, 100]);
